@@ -112,7 +112,8 @@ class Item:
     """one assignment: form, target type (for sub-forms: the type of the slice/element/view), sources"""
 
     def __init__(self, form, target, srcs):
-        self.form, self.target, self.srcs = form, tuple(target), [tuple(s) for s in srcs]
+        self.form, self.target = form, tuple(target)
+        self.srcs = [tuple(tuple(x) if isinstance(x, list) else x for x in s) for s in srcs]
 
     def key(self):
         return (self.form, ty_tok(self.target), *[src_tok(s) for s in self.srcs])
@@ -173,7 +174,7 @@ def build_design(items, name="E"):
         o = f"o{k}"
         exprs = []
         for j, s in enumerate(it.srcs):
-            p = f"i{k}" + ("ab"[j] if len(it.srcs) > 1 else "")
+            p = f"i{k}" + ("abc"[j] if len(it.srcs) > 1 else "")
             if s[0] == "rt":
                 ports.append(f"    {p} = Port.input({ty_py(s[1])})")
             exprs.append(src_expr(s, p))
@@ -216,15 +217,26 @@ def build_design(items, name="E"):
             arch.append(f"{name}Sub{k}(a={e}, q=self.{o})")
         elif f == "ifexp":
             need_c = True
-            conc.append(f"self.{o} <<= {exprs[0]} if self.c else {exprs[1]}")
+            if len(exprs) == 2:
+                conc.append(f"self.{o} <<= {exprs[0]} if self.c else {exprs[1]}")
+            else:
+                conc.append(f"self.{o} <<= {exprs[0]} if self.c else ({exprs[1]} if self.c2 else {exprs[2]})")
         elif f == "ret":
             need_c = True
-            pre_funcs.append(f"def f{k}(c, a, b):\n    if c:\n        return a\n    else:\n        return b\n")
             # one process per item: a traced `if`/`return` duplicates everything that follows it in the same context
-            own.append((k, f"self.{o} <<= f{k}(self.c, {exprs[0]}, {exprs[1]})"))
+            if len(exprs) == 2:
+                pre_funcs.append(f"def f{k}(c, a, b):\n    if c:\n        return a\n    else:\n        return b\n")
+                own.append((k, f"self.{o} <<= f{k}(self.c, {exprs[0]}, {exprs[1]})"))
+            else:
+                pre_funcs.append(f"def f{k}(c, c2, a, b, d):\n    if c:\n        return a\n    else:\n        if c2:\n            return b\n"
+                                 f"        else:\n            return d\n")
+                own.append((k, f"self.{o} <<= f{k}(self.c, self.c2, {exprs[0]}, {exprs[1]}, {exprs[2]})"))
         elif f == "select":
             need_c = True
-            conc.append(f'self.{o} <<= select_with(self.cb, {{"1": {exprs[0]}}}, default={exprs[1]})')
+            if len(exprs) == 2:
+                conc.append(f'self.{o} <<= select_with(self.cb, {{"1": {exprs[0]}}}, default={exprs[1]})')
+            else:
+                conc.append(f'self.{o} <<= select_with(self.cs, {{"10": {exprs[0]}, "01": {exprs[1]}}}, default={exprs[2]})')
         else:
             raise AssertionError(f)
     lines = [HEADER] + pre_classes + pre_funcs
@@ -232,7 +244,9 @@ def build_design(items, name="E"):
     lines.append("    clk = Port.input(Bit)")
     if need_c:
         lines.append("    c = Port.input(bool)")
+        lines.append("    c2 = Port.input(bool)")
         lines.append("    cb = Port.input(Bit)")
+        lines.append("    cs = Port.input(BitVector[2])")
     lines += ports
     lines.append("    def architecture(self):")
     lines += ["        " + a for a in arch] or []
@@ -277,28 +291,31 @@ def simulate(task):
     # both selector values
     per_item_vals = [[src_values(s) for s in it.srcs] for it in items]
     nsteps = max([1] + [max(len(v) for v in vs) for vs in per_item_vals])
-    merge = any(len(it.srcs) > 1 for it in items)
+    nopt = max(len(it.srcs) for it in items)
     out = [[] for _ in items]
-    err = None
     for p in pnames:
-        if p == "clk" or p in ("c", "cb"):
+        if p == "clk" or p in ("c", "c2", "cb", "cs"):
             d.set(p, 0)
     first = True
-    for sel in ((0, 1) if merge else (0,)):
+    mult = (1, 3, 5)
+    # choice ci = index of the alternative that is taken (rows are [ci, value of every alternative ..., observed])
+    for ci in range(nopt):
         for j in range(nsteps):
             cur = []
             if "c" in pnames:
-                d.set("c", bool(sel))
-                d.set("cb", sel)
+                d.set("c", ci == 0)
+                d.set("c2", ci == 1)
+                d.set("cb", 1 if ci == 0 else 0)
+                d.set("cs", {0: 2, 1: 1}.get(ci, 0))
             for k, it in enumerate(items):
                 vals = []
                 for jj, s in enumerate(it.srcs):
                     vl = per_item_vals[k][jj]
-                    # second operand of a merge walks in a different order so that both differ
-                    v = vl[(j * (1 if jj == 0 else 3) + jj) % len(vl)]
+                    # the alternatives walk through their values in different orders so that they differ
+                    v = vl[(j * mult[jj] + jj) % len(vl)]
                     vals.append(v)
                     if s[0] == "rt":
-                        d.set(f"i{k}" + ("ab"[jj] if len(it.srcs) > 1 else ""), v if s[1][0] != "bool" else bool(v))
+                        d.set(f"i{k}" + ("abc"[jj] if len(it.srcs) > 1 else ""), v if s[1][0] != "bool" else bool(v))
                 cur.append(vals)
             try:
                 if first:
@@ -311,10 +328,13 @@ def simulate(task):
             except VhdlRuntimeError as e:
                 # a run-time error of this step (e.g. to_unsigned of a negative integer): recorded as value "err"
                 for k, it in enumerate(items):
-                    out[k].append([sel] + cur[k] + ["err:" + str(e)[:60]])
+                    if ci < len(it.srcs):
+                        out[k].append([ci] + cur[k] + ["err:" + str(e)[:60]])
                 continue
             for k, it in enumerate(items):
-                out[k].append([sel] + cur[k] + [it.read(d.get(f"o{k}"))])
+                # an item with fewer alternatives takes its last one for the remaining choices: not recorded twice
+                if ci < len(it.srcs):
+                    out[k].append([ci] + cur[k] + [it.read(d.get(f"o{k}"))])
     return out
 
 
@@ -720,6 +740,15 @@ def run(ctx: Ctx):
     ctx.obligation("correspondence: simulated value = value of the cast chosen by Lean castModel (mirror of format_cast)",
                    not bad_cast, detail=f"{len(bad_cast)} differ" + (f"; first {bad_cast[:4]}" if bad_cast else ""))
 
+    cast_only = sorted({sig for (sig, x, cast, got) in bad_cast} - {singles[i].sig() for i in list(bad_value) + list(ill)})
+    if cast_only:
+        first = next(b for b in bad_cast if b[0] == cast_only[0])
+        it = next(singles[i] for i in rows if singles[i].sig() == cast_only[0])
+        ctx.report(f"correspondence:cast:{cls_of(it)}",
+                   f"{len(cast_only)} accepted assignments produce a value that is a permitted conversion but not the value of the cast "
+                   f"Lean castModel predicts; first {first[0]}: source value {first[1]}, model {first[2]}, observed {first[3]}",
+                   {"kind": "correspondence", "item": it.to_json(), "design": build_design([it]), "theorem": "C05.cast_preserves_partial speaks about castModel",
+                    "input": first[1], "expected": first[2], "observed": first[3], "cases": cast_only[:40]}, no_failing_input=True)
     # decisions that differ from the mirror without any failing input of the property (e.g. an over-rejection):
     # the property is no longer shown by the theorems about the mirror
     explained = set(accepted_reject) | set(bad_value) | set(ill)
@@ -740,43 +769,62 @@ def run(ctx: Ctx):
 
 
 # ---------------------------------------------------------------------------------------------------
-# merges: if-expression, function return, select_with
+# merges: if-expression (also nested), helper function with several returns, select_with - two or three alternatives
 # ---------------------------------------------------------------------------------------------------
+#
+# What the property demands of an accepted merge `target <<= merge(alt_0 .. alt_n)`, for the alternative that is
+# taken at run time:
+#   * Null / Full fill the TARGET with zeros / ones (they have no width of their own), whatever the other
+#     alternatives are;
+#   * a typed run-time alternative and an int / bool literal arrive converted by permitted conversions, either
+#     directly (alternative -> target) or through ONE common join type R (alternative -> R -> target, every step
+#     not in `mustReject`); R must be the same for all alternatives.
+# The mirror (Lean tryJoin / mergeOk / nestedOk) predicts the decision and R; it is only a correspondence - the
+# verdict comes from the rule above, trying every candidate R.
+
+
+def row_parts(row):
+    """row = [ci, x_0 .. x_{n-1}, y] -> (ci, x of the taken alternative, y)"""
+    ci = row[0]
+    return ci, row[1 + ci], row[-1]
 
 
 def chain_expected(items_rows, cand_of):
-    """items_rows: [(item, rows)], cand_of(item) -> join type tuple or None (direct).  -> per item: (steps specs, [(x, expected)])"""
-    req1, idx1 = [], []
-    plan = []
+    """items_rows: [(item, rows)], cand_of(item) -> join type tuple or None (alternatives go to the target directly).
+    -> {id(item): [(ci, x, y, expected | 'none')]}"""
+    req1, plan = [], []
     for it, rows in items_rows:
         R = cand_of(it)
-        recv = R if R is not None else it.target
-        for (sel, xa, xb, y) in rows:
-            s = it.srcs[0] if sel == 1 else it.srcs[1]
-            x = xa if sel == 1 else xb
+        for row in rows:
+            ci, x, y = row_parts(row)
+            s = it.srcs[ci]
+            through = R if (R is not None and s[0] not in ("null", "full")) else None
+            recv = through if through is not None else it.target
             if s[0] == "rt":
                 req1.append(f"conv {ty_tok(recv)} {ty_tok(s[1])} {x}")
             else:
                 req1.append(f"convlit {ty_tok(recv)} {src_tok(s)}")
-            plan.append((it, R, sel, x, y))
+            plan.append((it, through, ci, x, y))
     a1 = lean_io.query("C05", req1)
     req2 = []
-    for (it, R, sel, x, y), v in zip(plan, a1):
-        if R is None or v == "none":
+    for (it, through, ci, x, y), v in zip(plan, a1):
+        if through is None or v == "none":
             req2.append(f"conv {ty_tok(it.target)} {ty_tok(it.target)} {v if v != 'none' else 0}")
         else:
-            req2.append(f"conv {ty_tok(it.target)} {ty_tok(R)} {v}")
+            req2.append(f"conv {ty_tok(it.target)} {ty_tok(through)} {v}")
     a2 = lean_io.query("C05", req2)
     out = {}
-    for (it, R, sel, x, y), v1, v2 in zip(plan, a1, a2):
-        out.setdefault(id(it), []).append((sel, x, y, "none" if v1 == "none" else v2))
+    for (it, through, ci, x, y), v1, v2 in zip(plan, a1, a2):
+        out.setdefault(id(it), []).append((ci, x, y, "none" if v1 == "none" else v2))
     return out
 
 
 def merge_steps_spec(it, R):
-    """spec verdicts of the conversion steps of a merge through join type R (None = options go to the target directly)"""
-    recv = R if R is not None else it.target
-    req = [f"spec {ty_tok(recv)} {src_tok(s)}" for s in it.srcs]
+    """spec verdicts of the conversion steps of a merge through join type R (None = alternatives go to the target)"""
+    req = []
+    for s in it.srcs:
+        recv = it.target if (R is None or s[0] in ("null", "full")) else R
+        req.append(f"spec {ty_tok(recv)} {src_tok(s)}")
     if R is not None:
         req.append(f"spec {ty_tok(it.target)} rt:{ty_tok(R)}")
     return lean_io.query("C05", req)
@@ -791,21 +839,99 @@ def parse_ty_tok(tok):
     raise ValueError(tok)
 
 
+def fmt(y):
+    return "-" if y is None else str(y)
+
+
+def explains(it, rows, R):
+    """does join type R (None = direct) make every step a permitted conversion and every observed value right?"""
+    if "reject" in merge_steps_spec(it, R):
+        return False
+    e = chain_expected([(it, rows)], lambda _: R)[id(it)]
+    return all(ex != "none" and fmt(y) == ex for (ci, x, y, ex) in e)
+
+
+def merge_candidates(it):
+    return [None] + sorted({s[1] for s in it.srcs if s[0] == "rt"} | {("bool",)})
+
+
+def literal_position_items(ctx):
+    """Null / Full / int / bool literals in EVERY position (first, middle, last) next to typed alternatives of every kind
+    and width, targets of equal and strictly larger width of every compatible kind; 2 and 3 alternatives; all three
+    merge constructs"""
+    quick = ctx.quick
+    widths = (1, 2, 4) if quick else (1, 2, 3, 4, 5, 6)
+    items = []
+    for f in FORMS_MERGE:
+        for K in VEC:
+            for m in widths:
+                A = ("rt", (K, m))
+                wider = sorted({m, min(6, m + 1), 6} if quick else set(range(m, 7)))
+                targets = [(K, n) for n in wider]
+                if K == "uns":
+                    targets += [("sgn", n) for n in wider if n > m]
+                if K == "bv":
+                    targets += [("uns", m), ("sgn", m)]
+                else:
+                    targets += [("bv", m)]
+                lits = [("null",), ("full",), ("lit", 1), ("blit", True)]
+                if not quick:
+                    lits += [("lit", 0), ("lit", (1 << (m - 1)) - 1 if K == "sgn" else (1 << m) - 1)] + ([("lit", -1)] if K == "sgn" else [])
+                for t in targets:
+                    for L in lits:
+                        for n in (2, 3):
+                            for pos in range(n):
+                                srcs = [A] * n
+                                srcs[pos] = L
+                                items.append(Item(f, t, srcs))
+                        if not quick and m > 1:
+                            A2 = ("rt", (K, m - 1))
+                            for srcs in ([A, L, A2], [A2, A, L], [L, A2, A]):
+                                items.append(Item(f, t, srcs))
+        for A in (("rt", ("bit",)), ("rt", ("bool",))):
+            for t in (("bit",), ("bool",)):
+                for L in (("null",), ("full",), ("lit", 0), ("lit", 1), ("blit", True), ("blit", False)):
+                    for n in (2, 3):
+                        for pos in range(n):
+                            srcs = [A] * n
+                            srcs[pos] = L
+                            items.append(Item(f, t, srcs))
+    return items
+
+
+def merge_model(items):
+    """-> (expected accept per item, join type per item (None = no join / unknown for nested if-expressions))"""
+    req = []
+    for it in items:
+        toks = [src_tok(s) for s in it.srcs]
+        if it.form == "ifexp" and len(toks) == 3:
+            req += [f"nested {ty_tok(it.target)} " + " ".join(toks), "join " + " ".join(toks)]
+        else:
+            req += [f"merge {ty_tok(it.target)} " + " ".join(toks), "join " + " ".join(toks)]
+    ans = lean_io.query("C05", req)
+    if "bad-op" in ans:
+        raise AssertionError("model driver rejected a merge request")
+    exp = [ans[2 * i] == "1" for i in range(len(items))]
+    join = [None if ans[2 * i + 1] == "none" else parse_ty_tok(ans[2 * i + 1]) for i in range(len(items))]
+    return exp, join
+
+
 def run_merges(ctx):
     items = merge_items(ctx)
     if ctx.quick:
         small_targets = {("bit",), ("bool",), ("bv", 2), ("uns", 2), ("sgn", 2), ("uns", 3), ("sgn", 3)}
-        keep = [it for it in items if it.form == "ifexp" and it.target in small_targets]
+        # pairs of arbitrary alternatives (mostly rejected): seeded samples in the quick tier, complete in thorough;
+        # the structured literal-position stream below is complete in both tiers
+        first = [it for it in items if it.form == "ifexp" and it.target in small_targets]
         rest = [it for it in items if it.form != "ifexp"]
-        keep += ctx.rng.sample(rest, min(len(rest), 900))
-        items = keep
-    req = []
-    for it in items:
-        a, b = src_tok(it.srcs[0]), src_tok(it.srcs[1])
-        req += [f"merge {ty_tok(it.target)} {a} {b}", f"join {a} {b}"]
-    ans = lean_io.query("C05", req)
-    exp = [ans[2 * i] == "1" for i in range(len(items))]
-    join = [None if ans[2 * i + 1] == "none" else parse_ty_tok(ans[2 * i + 1]) for i in range(len(items))]
+        items = ctx.rng.sample(first, min(len(first), 700)) + ctx.rng.sample(rest, min(len(rest), 300))
+    seen = {it.key() for it in items}
+    for it in literal_position_items(ctx):
+        if it.key() not in seen:
+            seen.add(it.key())
+            items.append(it)
+    exp, join = merge_model(items)
+    index = {id(it): i for i, it in enumerate(items)}
     grouped = [i for i in range(len(items)) if exp[i]]
     alone = [i for i in range(len(items)) if not exp[i]]
     by_form = {}
@@ -813,7 +939,7 @@ def run_merges(ctx):
         by_form.setdefault(items[i].form, []).append(i)
     groups = []
     for f, idx in by_form.items():
-        groups += chunks(idx, 32)
+        groups += chunks(idx, 16 if f == "ret" else 40)
     res = compile_designs([build_design([items[i] for i in g]) for g in groups] + [build_design([items[i]]) for i in alone], ctx)
     observed, vh = [None] * len(items), {}
     retry = []
@@ -843,18 +969,21 @@ def run_merges(ctx):
                 vh.pop(i, None)
     mism = [i for i in range(len(items)) if observed[i] != exp[i]]
     for i, it in enumerate(items):
-        ctx.case(key=it.key(), nontrivial=True, kind=f"merge:{'accepted' if observed[i] else 'rejected'}",
+        ctx.case(key=it.key(), nontrivial=True, kind=f"merge{len(it.srcs)}:{'accepted' if observed[i] else 'rejected'}",
                  sample={"form": it.form, "target": ty_tok(it.target), "sources": [src_tok(s) for s in it.srcs],
                          "accepted": observed[i], "join": None if join[i] is None else ty_tok(join[i])} if i % 1499 == 0 else None)
-    ctx.obligation("correspondence: accept/reject of merged right-hand sides (if-expression, return, select_with) = Lean mergeOk (mirror of _try_join/_Redirect)",
+        for pos, s in enumerate(it.srcs):
+            if s[0] != "rt":
+                ctx.dist[f"merge-literal:{s[0]}@{('first', 'middle', 'last')[0 if pos == 0 else (2 if pos == len(it.srcs) - 1 else 1)]}"] += 1
+    ctx.obligation("correspondence: accept/reject of merged right-hand sides (if-expression, nested if-expression, return, select_with; 2 and 3 alternatives) = Lean mergeOk / nestedOk (mirror of _try_join/_Redirect)",
                    not mism, detail=f"{len(items)} cases, {len(mism)} differ" + (f"; first {[items[i].sig() for i in mism[:6]]}" if mism else ""))
-    # values
-    seen, tasks, tidx = set(), [], []
+    # ---- values: every accepted merge, all values of every alternative, every branch taken
+    seen_t, tasks, tidx = set(), [], []
     for i in sorted(vh):
         v, g = vh[i]
         key = (id(v), tuple(g))
-        if key not in seen:
-            seen.add(key)
+        if key not in seen_t:
+            seen_t.add(key)
             tasks.append((v, [items[j].to_json() for j in g]))
             tidx.append(g)
     rows = {}
@@ -863,78 +992,88 @@ def run_merges(ctx):
             raise AssertionError("simulation task failed: " + s[1])
         for i, r in zip(g, s[1]):
             rows[i] = r
-    err_items = [i for i, r in rows.items() if isinstance(r, tuple)]
+    err_items = [i for i, r in rows.items() if isinstance(r, tuple) and len(vh[i][1]) > 1]
     if err_items:
         rr = compile_designs([build_design([items[i]]) for i in err_items], ctx)
         ok_i = [i for i, r in zip(err_items, rr) if r["ok"]]
         for i, s in zip(ok_i, fork_map(sim_group, [(r["vhdl"], [items[i].to_json()]) for i, r in zip(err_items, rr) if r["ok"]], fresh=False, chunk=4)):
             rows[i] = s[1][0] if s[0] == "ok" else ("err", "sim", s[1])
     good = [(items[i], r) for i, r in rows.items() if not isinstance(r, tuple)]
-    jmap = {id(items[i]): join[i] for i in range(len(items))}
-    expd = chain_expected(good, lambda it: jmap[id(it)])
-    bad = []
-    nvals = 0
+    ill = [i for i, r in rows.items() if isinstance(r, tuple)]
+    # (1) spec, direct reading first (cheap, batched): every alternative straight into the target
+    direct = chain_expected(good, lambda it: None)
+    # (2) the mirror's join type
+    via_join = chain_expected(good, lambda it: join[index[id(it)]])
+    nvals, need_search, mirror_bad = 0, [], []
     for it, r in good:
-        e = expd[id(it)]
-        nvals += len(e)
-        wrong = [(sel, x, ex, "-" if y is None else str(y)) for (sel, x, y, ex) in e if ex == "none" or ("-" if y is None else str(y)) != ex]
-        steps = merge_steps_spec(it, jmap[id(it)]) if wrong else None
-        if wrong:
-            bad.append((it, wrong))
-    # spec verdict of the steps of every accepted merge (batched)
+        i = index[id(it)]
+        nvals += len(r)
+        ok_direct = all(ex != "none" and fmt(y) == ex for (ci, x, y, ex) in direct[id(it)])
+        ok_join = all(ex != "none" and fmt(y) == ex for (ci, x, y, ex) in via_join[id(it)])
+        flat = not (it.form == "ifexp" and len(it.srcs) == 3)
+        if flat and not ok_join:
+            mirror_bad.append(i)
+        if not (ok_join if join[i] is not None else ok_direct):
+            need_search.append(i)
+    # spec verdict of the steps through the mirror's join type, batched
     acc = [i for i in range(len(items)) if observed[i]]
     sreq, sidx = [], []
     for i in acc:
         it, R = items[i], join[i]
-        recv = R if R is not None else it.target
-        q = [f"spec {ty_tok(recv)} {src_tok(s)}" for s in it.srcs] + ([f"spec {ty_tok(it.target)} rt:{ty_tok(R)}"] if R is not None else [])
+        q = [f"spec {ty_tok(it.target if (R is None or s[0] in ('null', 'full')) else R)} {src_tok(s)}" for s in it.srcs] \
+            + ([f"spec {ty_tok(it.target)} rt:{ty_tok(R)}"] if R is not None else [])
         sidx.append((i, len(q)))
         sreq += q
     sans = lean_io.query("C05", sreq)
     p = 0
-    rej = []
     for i, n in sidx:
         if "reject" in sans[p:p + n]:
-            rej.append(i)
+            need_search.append(i)
         p += n
-    # a merge whose steps (through the join type the mirror predicts) contain a must-reject conversion or whose value is
-    # not explained: try every other join type before calling it a violation
-    todo = {items[i].sig(): items[i] for i in rej}
-    for it, w in bad:
-        todo[it.sig()] = it
-    viol = {}
-    for sig, it in sorted(todo.items()):
-        cands = [None] + sorted({s[1] for s in it.srcs if s[0] == "rt"} | {("bool",)})
-        r = rows.get(items.index(it))
-        explained = False
-        for R in cands:
-            if "reject" in merge_steps_spec(it, R):
-                continue
-            if r is None or isinstance(r, tuple):
-                continue
-            e = chain_expected([(it, r)], lambda _: R)[id(it)]
-            if all(ex != "none" and ("-" if y is None else str(y)) == ex for (sel, x, y, ex) in e):
-                explained = True
-                break
-        if not explained:
-            viol.setdefault(cls_of(it), []).append(it)
-    for cls, its in sorted(viol.items()):
-        it = min(its, key=item_size)
-        r = rows.get(items.index(it))
+    need_search += [i for i in mism if observed[i]]
+    viol, explained_other = {}, []
+    for i in sorted(set(need_search)):
+        it, r = items[i], rows.get(i)
+        if r is None or isinstance(r, tuple):
+            continue
+        if any(explains(it, r, R) for R in merge_candidates(it)):
+            explained_other.append(i)
+        else:
+            viol.setdefault(cls_of(it), []).append(i)
+    for cls, idx in sorted(viol.items()):
+        i = min(idx, key=lambda j: item_size(items[j]))
+        it, r = items[i], rows[i]
+        d = chain_expected([(it, r)], lambda _: None)[id(it)]
+        wrong = [(ci, src_tok(it.srcs[ci]), x, ex, fmt(y)) for (ci, x, y, ex) in d if fmt(y) != ex][:8]
+        w = wrong[0] if wrong else None
         ctx.report(f"merge:{cls}",
-                   f"{it.form}: target {ty_tok(it.target)} <- merge of {[src_tok(s) for s in it.srcs]} is accepted but no join type makes every step a "
-                   f"conversion the property permits with the observed values ({len(its)} cases of this class)",
-                   {"kind": "merge", "item": it.to_json(), "design": build_design([it]), "observed_rows[sel,a,b,out]": r if not isinstance(r, tuple) else list(r),
-                    "other_cases": [x.sig() for x in its[:30]]})
-    ill = [i for i, r in rows.items() if isinstance(r, tuple)]
+                   f"{it.form}: target {ty_tok(it.target)} <- merge of {[src_tok(s) for s in it.srcs]} is accepted, but "
+                   + (f"when alternative {w[0]} ({w[1]}, value {w[2]}) is taken the target receives {w[4]} instead of {w[3]}; " if w else "")
+                   + f"no common join type makes every step a permitted conversion with the observed values ({len(idx)} cases of this class)",
+                   {"kind": "merge", "item": it.to_json(), "design": build_design([it]), "wrong[alternative,source,value,expected,observed]": wrong,
+                    "observed_rows[alternative taken, values of the alternatives.., out]": r[:24], "other_cases": [items[j].sig() for j in idx[:30]]})
     for i in ill[:3]:
         it = items[i]
         ctx.report(f"ill-typed:{cls_of(it)}", f"{it.form}: merge {it.sig()} is accepted but the emitted VHDL cannot be executed: {rows[i][1]}: {rows[i][2]}",
                    {"kind": "merge", "item": it.to_json(), "design": build_design([it]), "observed": list(rows[i])})
+    # what the tie saw but could not turn into a failing input of the property
+    reported = {j for idx in viol.values() for j in idx} | set(ill)
+    leftover = [i for i in sorted(set(mism) | set(mirror_bad)) if i not in reported]
+    if leftover:
+        i = min(leftover, key=lambda j: item_size(items[j]))
+        it = items[i]
+        ctx.report(f"correspondence:merge:{cls_of(it)}:{'accepted' if observed[i] else 'rejected'}",
+                   f"{len(leftover)} merges behave differently from the Lean mirror (decision or join type) while every observed value is "
+                   f"still a permitted conversion; first {it.sig()}: compiler {'accepts' if observed[i] else 'rejects'}, model "
+                   f"{'accepts' if exp[i] else 'rejects'}, model join type {None if join[i] is None else ty_tok(join[i])}",
+                   {"kind": "merge-correspondence", "item": it.to_json(), "design": build_design([it]), "expected": exp[i], "observed": observed[i],
+                    "theorem": "C05.join_sound / C05.merge_sound speak about tryJoin / mergeOk", "cases": [items[j].sig() for j in leftover[:40]]},
+                   no_failing_input=True)
     ctx.extra["merge_cases"] = len(items)
     ctx.extra["merge_values"] = nvals
-    ctx.obligation("correspondence: value of every accepted merge = Lean convert through the join type of Lean tryJoin, on all values of both branches",
-                   not bad and not ill, detail=f"{nvals} values of {len(good)} accepted merges, {len(bad)} unexplained by the mirror's join type, {len(ill)} ill-typed")
+    ctx.obligation("correspondence: value of every accepted merge, for every alternative taken and all its values = Lean convert through the join type of Lean tryJoin (Null/Full fill the target)",
+                   not mirror_bad and not ill and not viol, detail=f"{nvals} values of {len(good)} accepted merges, {len(mirror_bad)} not explained by the mirror's join type, "
+                   f"{sum(len(v) for v in viol.values())} violate the property, {len(ill)} ill-typed")
 
 
 # ---------------------------------------------------------------------------------------------------
@@ -1044,6 +1183,12 @@ def run_python_level(ctx):
                     viol.setdefault(f"py{which}:value:{cls_of(it)}", []).append((it, wrong[0]))
     ctx.obligation("correspondence: Python-level `_assign` / `T(value)` on constant objects accept exactly what Lean assignFront / initFront accept",
                    not mism, detail=f"{len(cases)} (target, source) pairs, all source values; {len(mism)} differ" + (f"; first {mism[:5]}" if mism else ""))
+    if mism and not viol:
+        ctx.report("correspondence:python-level:" + mism[0][0],
+                   f"{len(mism)} Python-level `_assign` / `T(value)` decisions differ from Lean assignFront / initFront without violating the "
+                   f"property; first {mism[0][0]}: _assign accepted={mism[0][1]} (model {mism[0][2]}), T(value) accepted={mism[0][3]} (model {mism[0][4]})",
+                   {"kind": "py-correspondence", "item": {"form": "py", "target": [], "srcs": []}, "cases": [list(m) for m in mism[:40]],
+                    "theorem": "C05.accepted_never_must_reject speaks about assignFront / initFront"}, no_failing_input=True)
     for sig, lst in sorted(viol.items()):
         it, w = min(lst, key=lambda x: item_size(x[0]))
         ctx.report(sig, f"Python level: {ty_tok(it.target)} <- {src_tok(it.srcs[0])}: " + ("accepted although the property demands an error" if w is None else f"value {w[0]} becomes {w[2]} (expected {w[1]})"),
@@ -1079,6 +1224,12 @@ def replay(ctx, data):
         exp = lean_io.query("C05", [f"ok {lean_form(it.form)} {ty_tok(it.target)} {src_tok(it.srcs[0])}"])[0] == "1"
         print("model:", "accepted" if exp else "rejected")
         return 0 if exp == c["ok"] else 1
+    if kind == "merge-correspondence":
+        exp, join = merge_model([it])
+        print("model:", "accepted" if exp[0] else "rejected", "join", join[0])
+        return 0 if exp[0] == c["ok"] else 1
+    if kind == "py-correspondence":
+        return 1
     if not c["ok"]:
         return 0
     if kind == "accept":
@@ -1089,15 +1240,13 @@ def replay(ctx, data):
         print("emitted VHDL cannot be executed:", rows)
         return 1
     if kind == "merge":
-        cands = [None] + sorted({s[1] for s in it.srcs if s[0] == "rt"} | {("bool",)})
-        for R in cands:
-            if "reject" in merge_steps_spec(it, R):
-                continue
-            e = chain_expected([(it, rows)], lambda _: R)[id(it)]
-            if all(ex != "none" and ("-" if y is None else str(y)) == ex for (sel, x, y, ex) in e):
-                print("explained by join type", R)
+        for R in merge_candidates(it):
+            if explains(it, rows, R):
+                print("every alternative arrives by permitted conversions; join type", R)
                 return 0
-        print("rows [sel, a, b, out]:", rows[:16])
+        for (ci, x, y, ex) in chain_expected([(it, rows)], lambda _: None)[id(it)]:
+            if fmt(y) != ex:
+                print(f"alternative {ci} ({src_tok(it.srcs[ci])}) taken with value {x}: target receives {fmt(y)}, expected {ex}")
         return 1
     s = it.srcs[0]
     bad = 0
